@@ -1414,3 +1414,50 @@ fn c07_write_buf_atoms() {
     let n = write_buf_of(&MD::new(Val::Bool(true)), &mut out);
     assert!(n == 4 && out[0] == b't' && out[3] == b'e');
 }
+
+// ------------------------------------------------------------------------------------------
+// C07: parse_string - the JSON / XJON string reader at points (text after the opening quote)
+// ------------------------------------------------------------------------------------------
+fn str_is(r: &Result<Vec<u8>, hifijson::Error>, want: &[u8]) -> bool {
+    match r {
+        Ok(v) => {
+            let mut same = v.len() == want.len();
+            let mut i = 0;
+            while same && i < want.len() {
+                same = v[i] == want[i];
+                i += 1;
+            }
+            same
+        }
+        Err(_) => false,
+    }
+}
+/// text strings: plain bytes are copied, invalid UTF-8 included
+#[kani::proof]
+#[kani::unwind(12)]
+fn c07_parse_string_plain() {
+    use crate::read::verif_parse_string as ps;
+    assert!(str_is(&MD::new(ps(b"a\xffb\"", false)), b"a\xffb"));
+}
+/// text strings: two-character escapes
+#[kani::proof]
+#[kani::unwind(12)]
+fn c07_parse_string_esc() {
+    use crate::read::verif_parse_string as ps;
+    assert!(str_is(&MD::new(ps(b"\\n\\\"\"", false)), b"\n\""));
+}
+/// text strings: \uXXXX denotes that character, written as UTF-8
+#[kani::proof]
+#[kani::unwind(12)]
+fn c07_parse_string_uni() {
+    use crate::read::verif_parse_string as ps;
+    assert!(str_is(&MD::new(ps(b"\\u00e4\"", false)), "\u{e4}".as_bytes()));
+}
+/// byte strings: \xNN denotes the byte NN itself (not the character U+00NN); \u is refused
+#[kani::proof]
+#[kani::unwind(12)]
+fn c07_parse_string_bytes() {
+    use crate::read::verif_parse_string as ps;
+    assert!(str_is(&MD::new(ps(b"\\xff\\x00a\"", true)), b"\xff\x00a"));
+    assert!(MD::new(ps(b"\\u00e4\"", true)).is_err());
+}
